@@ -406,10 +406,17 @@ def _expr_chain(text):
         j = src_end
         segs = []
         while True:
-            mm = re.compile(r"\s*\.\s*(\w+)\s*\(").match(b, j)
+            mm = re.compile(r"\s*\.\s*(\w+)\s*(::\s*<[^()]*>)?\s*\(").match(b, j)
             if not mm or mm.group(1) not in _ADAPTERS + _CONSUMERS:
                 break
             c = R.match_close(b, mm.end() - 1)
+            if mm.group(2):
+                # the only turbofish in the catalogue: `collect::<Result<Vec<_>, _>>()` (the first `Err` wins, else all the `Ok` values)
+                if mm.group(1) != "collect" or "".join(mm.group(2).split()) != "::<Result<Vec<_>,_>>":
+                    raise ExtractError("R16: turbofish `%s%s` outside the catalogue" % (mm.group(1), mm.group(2)))
+                segs.append(("collect", "Result"))
+                j = c + 1
+                break
             segs.append((mm.group(1), text[mm.end():c]))
             j = c + 1
             if mm.group(1) in _CONSUMERS:
@@ -478,7 +485,10 @@ def _expr_chain(text):
             if name == "map":
                 cl = _closure(arg)
                 prev, e = e, nxt()
-                if cl:
+                if cl and re.match(r"&\s*\w+$", cl[0]):
+                    # `|&a| ..` on an iterator of references: a = the element itself (Copy)
+                    body.append("let %s = { let %s = *%s; %s };" % (e, cl[0][1:].strip(), prev, cl[1]))
+                elif cl:
                     body.append("let %s = { let %s = %s; %s };" % (e, cl[0], prev, cl[1]))
                 else:
                     body.append("let %s = %s(%s);" % (e, " ".join(arg.split()), prev))
@@ -507,7 +517,15 @@ def _expr_chain(text):
             elif name in _CONSUMERS:
                 cons = (name, arg)
         acc = "acc%d_" % k
-        if cons is None or cons[0] == "collect":
+        tail = acc
+        if cons is not None and cons[0] == "collect" and cons[1] == "Result":
+            # Result-collect: std stops at the first Err and returns it; read eagerly (the mapped function is evaluated on the later
+            # elements too, its results are dropped) - same value whenever the mapped function returns normally
+            err = "err%d_" % k
+            init = "let mut %s = Vec::new(); let mut %s = None;" % (acc, err)
+            upd = "if %s.is_none() { match %s { Ok(v%d_) => { %s.push(v%d_); } Err(x%d_) => { %s = Some(x%d_); } } }" % (err, e, k, acc, k, k, err, k)
+            tail = "match %s { None => Ok(%s), Some(x%d_) => Err(x%d_) }" % (err, acc, k, k)
+        elif cons is None or cons[0] == "collect":
             init, upd = "let mut %s = Vec::new();" % acc, "%s.push(%s);" % (acc, e)
         elif cons[0] == "any":
             cl = _closure(cons[1])
@@ -543,10 +561,10 @@ def _expr_chain(text):
         nl = old.count("\n")
         if nl >= 2:
             # enough source lines: put the accumulator update on a line of its own so that proof hints can be anchored around it
-            new = "{ " + init + " " + " ".join(head) + " " + " ".join(body) + "\n" + upd + "\n" + "}" * opens + " " + acc + " }" + "\n" * (nl - 2)
+            new = "{ " + init + " " + " ".join(head) + " " + " ".join(body) + "\n" + upd + "\n" + "}" * opens + " " + tail + " }" + "\n" * (nl - 2)
             text = text[:start] + new + text[end:]
         else:
-            new = "{ " + init + " " + " ".join(head) + " " + " ".join(body) + " " + upd + " " + "}" * opens + " " + acc + " }"
+            new = "{ " + init + " " + " ".join(head) + " " + " ".join(body) + " " + upd + " " + "}" * opens + " " + tail + " }"
             text = text[:start] + new + _blank_lines(old) + text[end:]
         pos = start + len(new)
 
